@@ -2,7 +2,7 @@
    `value`, `simple_key`; the default styles exist. *)
 From TV Require Import Base.Prelude Base.Utf8 Base.Winnow Gen.Consts.
 From TV Require Import Model.Trivia Model.Strings Model.Tree Model.Parse Model.Document Model.Write.
-From TV Require Import Proofs.StringsRTDefs Proofs.StringsRTBase Proofs.StringsRTWrite Proofs.StringsRTEsc.
+From TV Require Import Proofs.Eoi Proofs.StringsRTDefs Proofs.StringsRTBase Proofs.StringsRTWrite Proofs.StringsRTEsc.
 From TV Require Import Proofs.StringsRTBasic Proofs.StringsRTQuotes Proofs.StringsRTMlLit Proofs.StringsRTMlBasic.
 Require Import Lia ZifyBool ZifyN ZifyNat.
 
@@ -278,6 +278,11 @@ Proof.
   rewrite (bind_ok _ _ _ _ _ H). unfold after. rewrite (bind_ok _ _ _ _ _ (eof_nil _ _)). reflexivity.
 Qed.
 
+(* the same through terminated(p, end_of_input), the form of the stand-alone entry points *)
+Lemma parse_all_eoi_ok_after {A} (p : parser A) t a :
+  p (mkIn (t ++ []) 0%N 0) = Ok a (after t [] 0%N 0) -> parse_all (terminated_eoi p) t = Done a.
+Proof. intro H. apply parse_all_eoi_done. apply parse_all_ok. exact H. Qed.
+
 Theorem value_styles_parse s st t :
   utf8_valid_b s = true -> write_string st s = Some t ->
   string_ (new_input t) = Ok s (mkIn [] (N.of_nat (length t)) 0) /\
@@ -287,7 +292,7 @@ Proof.
   pose proof (value_styles_rt s st t [] 0%N 0 Hu H I) as Hs.
   split.
   - unfold new_input. rewrite app_nil_r in Hs. rewrite Hs. unfold after. rewrite N.add_0_l. reflexivity.
-  - unfold parse_value_raw. rewrite (parse_all_ok value_ t (string_value s t 0)); [reflexivity|].
+  - unfold parse_value_raw. rewrite (parse_all_eoi_ok_after value_ t (string_value s t 0)); [reflexivity|].
     apply value_of_string; [|exact Hs].
     unfold write_string in H.
     apply (quote_headed_token s (vmetrics_of s) st t H).
@@ -374,7 +379,7 @@ Theorem key_styles_parse s st t :
 Proof.
   intros Hu H. pose proof (key_styles_rt s st t [] 0%N 0 Hu H I) as Hs. split.
   - unfold new_input. rewrite app_nil_r in Hs. rewrite Hs. unfold after. rewrite N.add_0_l. reflexivity.
-  - unfold parse_key. rewrite (parse_all_ok simple_key t (key_result t s 0)); [reflexivity|exact Hs].
+  - unfold parse_key. rewrite (parse_all_eoi_ok_after simple_key t (key_result t s 0)); [reflexivity|exact Hs].
 Qed.
 
 (* ---- a default style always exists ---------------------------------------------------------------- *)
